@@ -886,7 +886,9 @@ class Inliner:
         return pre + (_convert(body, lambda e: []) or [ast.copy_location(ast.Pass(), s)])
 
     def _expand_collect(self, s, tgt, callee, recv, root):
-        pre, body = self._bind(s.value.args[0], callee, recv, root, {x.id for x in ast.walk(tgt) if isinstance(x, ast.Name)})
+        # the target is the list being filled: a local of the generator that happens to have its name is a different variable
+        # and must be renamed (no "the helper's local becomes the target" exception here)
+        pre, body = self._bind(s.value.args[0], callee, recv, root, set())
 
         def make(v, at):
             load = copy.deepcopy(tgt)
